@@ -75,7 +75,8 @@ class ConstrainedProblem(Problem):
         return np.concatenate([orig_grad, np.zeros((num_slacks,))])
 
     def cons(self, x):
-        orig_cons = self.problem.cons(self.orig_vals(x))
+        # copy: the array returned by the user must not be modified
+        orig_cons = np.copy(self.problem.cons(self.orig_vals(x)))
 
         num_slacks = len(self.slack_positions)
 
